@@ -1,8 +1,8 @@
 """C11 -- see DESIGN.md section 5.  Deductive targets are added below the bounded import."""
 PROP = "C11"
 LEVEL = 'proof'
-EXPLANATION = ('Deductive: every line-writing method of Output / IO / SectionOutput emits a payload ending in exactly the newline asked for (raw variants: exactly one), decorated outputs go through format and undecorated ones through remove_format, a plain section degrades to a plain write of the same kind -- for all flags, verbosities and texts.  Bounded: message grammar x three renderings (decorated stripped == plain == tag-stripped), exhaustive style codes through the three ways of supplying a style, indent scope nestings with normal and exceptional exits.')
-LEVEL_NOTE = ('assumes: abstract stream and formatter contracts (write appends, format/remove_format are functions of formatter and text); the indentation expression of Output.write is an arbitrary string here (its meaning is bounded); pastel is external: decorated == plain and SGR codes are bounded only; indent scopes bounded only')
+EXPLANATION = ('Deductive: every line-writing method of Output / IO / SectionOutput emits a payload ending in exactly the newline asked for (raw variants: exactly one), decorated outputs go through format and undecorated ones through remove_format, a plain section degrades to a plain write of the same kind (overwrite included) -- for all flags, verbosities and texts; whenever an indentation is in force and asked for, the text that is formatted is indented(width, text) (the indentation expression as an uninterpreted function of width and text); the constructor of Output classifies an output as undecorated whenever its formatter disables ANSI or neither stream nor formatter provide it, and as decorated otherwise; AnsiFormatter.format leaves the style stack of pastel at the depth it found, add_style (re)defines the style of its tag.  Bounded: message grammar x three renderings (decorated stripped == plain == tag-stripped), exhaustive style codes through the three ways of supplying a style, indent scope nestings with normal and exceptional exits.')
+LEVEL_NOTE = ('assumes: abstract stream and formatter contracts (write appends, format/remove_format are functions of formatter and text); the indentation expression of Output.write is an uninterpreted function of width and text (what it prepends is bounded); the post-processing of decorated text by a compiled pattern is an arbitrary string computed from that text; pastel is external: decorated == plain and SGR codes are bounded only; indent scopes bounded only')
 from . import io_contracts as ioc
 TARGETS = [ioc.M_OUT + ":Output." + m for m in ("write", "write_line", "write_raw", "write_line_raw")]
 TARGETS += [ioc.M_IO + ":IO." + m for m in ("write_line", "write_line_raw", "error_line", "error_line_raw")]
